@@ -9,6 +9,10 @@ A *spec* is a small JSON-able description of a circuit:
             "tag": str}
   bodydef= {"k":"trans","name","ready":k|None,"block":[stmt]}
          | {"k":"method","name","ready":k|None,"nx":0|1,"block":[stmt]}
+         | {"k":"if","alts":[{"c":k|None,"items":[bodydef]}]}            transactions defined under m.If/Elif/Else
+         | {"k":"switch","sel":[k…],"cases":[{"pat":int|None,"items":[bodydef]}]}   … under m.Switch/Case/Default
+         | {"k":"fsm","sel":[k…],"states":[{"items":[bodydef]}]}          … under m.FSM/State (state register driven
+                                                                            by the testbench from the inputs `sel`)
   stmt   = {"k":"call","m":name,"en":k|None,"arg":dk|None}     m = leaf / user method / "cn0.write" / "cn0.read"
          | {"k":"cond","nb":0|1,"prio":0|1,"branches":[{"c":k|None,"block":[stmt]}]}   c=None: default branch
          | {"k":"trans","name","ready":k|None,"block":[stmt]}  (a transaction nested in the enclosing body)
@@ -80,6 +84,73 @@ def classify_exception(e: BaseException) -> str:
     return f"other:{type(e).__name__}"
 
 
+# ------------------------------------------------------------------------------------ guards (Amaranth control flow)
+def g_and(a, b):
+    if a is None:
+        return b
+    if b is None:
+        return a
+    return ["and", a, b]
+
+
+def g_all(lits: list):
+    out = None
+    for l in lits:
+        out = g_and(out, l)
+    return out
+
+
+def _sel_is(sel: list, val: int):
+    return g_all([(["in", k] if (val >> i) & 1 else ["not", ["in", k]]) for i, k in enumerate(sel)])
+
+
+def alt_guards(item: dict) -> list:
+    """per alternative of a top-level control structure: (guard expression over the inputs, items) - the Amaranth
+    semantics of If/Elif/Else (first true condition), Switch (patterns are distinct; Default = no case matches) and
+    FSM (state register = the value of the `sel` inputs) written out"""
+    out = []
+    if item["k"] == "if":
+        prev: list = []
+        for alt in item["alts"]:
+            me = [["not", ["in", c]] for c in prev] + ([["in", alt["c"]]] if alt["c"] is not None else [])
+            out.append((g_all(me), alt["items"]))
+            if alt["c"] is not None:
+                prev.append(alt["c"])
+    elif item["k"] == "switch":
+        pats = [c["pat"] for c in item["cases"] if c["pat"] is not None]
+        for c in item["cases"]:
+            if c["pat"] is not None:
+                out.append((_sel_is(item["sel"], c["pat"]), c["items"]))
+            else:
+                out.append((g_all([["not", _sel_is(item["sel"], p)] for p in pats]), c["items"]))
+    elif item["k"] == "fsm":
+        for i, st in enumerate(item["states"]):
+            out.append((_sel_is(item["sel"], i), st["items"]))
+    return out
+
+
+def flat_items(spec: dict) -> list:
+    """top-level body definitions with the guard of the control structure they are written in (None: none)"""
+    out = []
+    for it in spec["items"]:
+        if it["k"] in ("if", "switch", "fsm"):
+            for guard, items in alt_guards(it):
+                out += [(x, guard) for x in items]
+        else:
+            out.append((it, None))
+    return out
+
+
+def g_eval(e, bits) -> int:
+    if e is None or e[0] == "one":
+        return 1
+    if e[0] == "in":
+        return bits[e[1]]
+    if e[0] == "not":
+        return 1 - g_eval(e[1], bits)
+    return g_eval(e[1], bits) & g_eval(e[2], bits)
+
+
 # ------------------------------------------------------------------------------------ real build
 @dataclass
 class SiteRec:
@@ -88,6 +159,7 @@ class SiteRec:
     call_tuple: tuple  # (ctrl_path, arg_rec, enable_sig) appended to caller.method_calls[method_obj]
     res: Optional[Signal]
     stmt: dict
+    guard: Any = None
 
 
 @dataclass
@@ -115,6 +187,9 @@ class SimulTop(Elaboratable):
         self.bodies: dict[str, Body] = {}  # name -> Body
         self.sites: list[SiteRec] = []
         self.uses: list[UseRec] = []
+        self.guard: Any = None  # guard of the top-level control structure being built
+        self.body_guard: dict[str, Any] = {}
+        self.fsm_states: list = []  # (state register, input indices that give its value)
         for lf in spec.get("leaves", []):
             self.methods[lf["name"]] = Method(name=lf["name"])
         for it in spec["items"]:
@@ -153,7 +228,7 @@ class SimulTop(Elaboratable):
         if ow > 0:
             res = Signal(ow, name=f"res{len(self.sites)}")
             m.d.top_comb += res.eq(ret.d)
-        self.sites.append(SiteRec(caller, meth, tup, res, s))
+        self.sites.append(SiteRec(caller, meth, tup, res, s, self.guard))
 
     def s_cond(self, m, s):
         parent = Body.get()
@@ -170,9 +245,38 @@ class SimulTop(Elaboratable):
         self.uses.append(UseRec(parent, branches, [br["c"] for br in s["branches"]], s["nb"], s["prio"], s))
         s["_use"] = u
 
+    def _items(self, m, guard, items):
+        self.guard = guard
+        for it in items:
+            getattr(self, "s_" + it["k"])(m, it)
+        self.guard = None
+
+    def s_if(self, m, s):
+        guards = alt_guards(s)
+        for i, alt in enumerate(s["alts"]):
+            ctx = m.If(self.inp(alt["c"])) if i == 0 else (m.Else() if alt["c"] is None else m.Elif(self.inp(alt["c"])))
+            with ctx:
+                self._items(m, guards[i][0], alt["items"])
+
+    def s_switch(self, m, s):
+        guards = alt_guards(s)
+        with m.Switch(Cat(*[self.inp(k) for k in s["sel"]])):
+            for i, case in enumerate(s["cases"]):
+                with (m.Default() if case["pat"] is None else m.Case(case["pat"])):
+                    self._items(m, guards[i][0], case["items"])
+
+    def s_fsm(self, m, s):
+        guards = alt_guards(s)
+        with m.FSM(name=f"fsm{len(self.fsm_states)}") as fsm:
+            for i, st in enumerate(s["states"]):
+                with m.State(f"S{i}"):
+                    self._items(m, guards[i][0], st["items"])
+        self.fsm_states.append((fsm.state, list(s["sel"])))
+
     def s_trans(self, m, s):
         t = Transaction(name=s["name"])
         self.objs[s["name"]] = t
+        self.body_guard[s["name"]] = self.guard
         kw = {}
         if s.get("ready") is not None:
             kw["ready"] = self.inp(s["ready"])
@@ -425,7 +529,7 @@ def _static_callees(spec: dict) -> dict:
             elif s["k"] == "trans":
                 walk(s["name"], s["block"], ctr)
 
-    for it in spec["items"]:
+    for it, _ in flat_items(spec):
         walk(it["name"], it["block"], None)
     out = {}
 
@@ -450,8 +554,10 @@ def _make_cfg(b: Built):
     rdy = [list(x) for x in rdy]
 
     def setr(name, k):
-        if name in b.id_of and k is not None:
-            rdy[b.id_of[name]] = ["in", k]
+        if name in b.id_of:
+            e = g_and(top.body_guard.get(name), ["in", k] if k is not None else None)
+            if e is not None:
+                rdy[b.id_of[name]] = e
 
     for lf in spec.get("leaves", []):
         setr(lf["name"], lf.get("ready"))
@@ -465,7 +571,7 @@ def _make_cfg(b: Built):
                 for br in s["branches"]:
                     walk(br["block"])
 
-    walk(spec["items"])
+    walk([it for it, _ in flat_items(spec)])
     uses = []
     for u, ur in enumerate(top.uses):
         brs = [b.body_id[id(x)] for x in ur.branches]
@@ -474,7 +580,7 @@ def _make_cfg(b: Built):
     en = []
     args = []
     for r in top.sites:
-        en.append(["in", r.stmt["en"]] if r.stmt.get("en") is not None else ["one"])
+        en.append(g_and(r.guard, ["in", r.stmt["en"]] if r.stmt.get("en") is not None else None) or ["one"])
         iw = len(r.method_obj.data_in.as_value())
         args.append([r.stmt["arg"], iw] if (iw > 0 and r.stmt.get("arg") is not None) else [-1, iw])
     pairs = []
@@ -590,6 +696,8 @@ def simulate(b: Built, vals: list) -> list[Obs]:
                 x |= (v & ((1 << len(sig)) - 1)) << lo
                 lo += len(sig)
             ctx.set(bus, x)
+            for sig, sel in top.fsm_states:
+                ctx.set(sig, sum(bits[k] << i for i, k in enumerate(sel)) & ((1 << len(sig)) - 1))
             await ctx.delay(1e-6)
             packed = ctx.get(allobs)
             out = []
@@ -796,7 +904,7 @@ def gen_c13(rng: random.Random, kind: str, P: Optional[dict] = None) -> dict:
     P = {**DEFAULT_P, **(P or {})}
     g = _Gen(rng, P)
     if kind == "free":
-        kind = rng.choice(["connect", "connect", "connect2", "tt", "mm", "tm", "nested"])
+        kind = rng.choice(["connect", "connect", "connect2", "tt", "mm", "tm", "nested", "half", "guarded"])
     if kind == "nested":
         # what condition() builds, written by hand: a transaction nested in method M and declared simultaneous
         # with M (one or two nesting levels, with and without callees); M is reached through a call chain of 1-3
@@ -835,7 +943,58 @@ def gen_c13(rng: random.Random, kind: str, P: Optional[dict] = None) -> dict:
         w = c["w"] if side == "write" else c["rw"]
         return {"k": "call", "m": f"{cn}.{side}", "en": None, "arg": (g.din(w) if w > 0 else None)}
 
-    if kind == "connect":
+    if kind == "half":
+        # one end of a simultaneous method pair has no caller at all: the callers of the other end can never run
+        if rng.random() < 0.6:
+            cn = connect()
+            side = rng.choice(["write", "read"])
+            for _ in range(rng.choice([1, 1, 2])):
+                caller([ccall(cn, side)])
+            if rng.random() < 0.5:  # next to a fully connected Connect
+                c2 = connect()
+                caller([ccall(c2, "write")])
+                caller([ccall(c2, "read")])
+        else:
+            names = []
+            for side in range(2):
+                mn = g.mname()
+                g.items.append({"k": "method", "name": mn, "ready": g.maybe_inp(0.6), "nx": 0, "block": g.calls(0, 1, 0.2)})
+                names.append(mn)
+            for _ in range(rng.choice([1, 2])):
+                caller([{"k": "call", "m": names[0], "en": None, "arg": None}], 0, 1)
+            g.simul.append(names if rng.random() < 0.5 else names[::-1])
+    elif kind == "guarded":
+        # callers of the two ends are transactions written inside If/Elif/Else, Switch/Case/Default or FSM states
+        cn = connect()
+        bodies = []
+        for side in ["write"] * rng.choice([1, 1, 2]) + ["read"] * rng.choice([1, 1, 2]):
+            caller([ccall(cn, side)])
+            bodies.append(g.items.pop())
+        rng.shuffle(bodies)
+        n_guarded = rng.randint(1, len(bodies))
+        guarded, free = bodies[:n_guarded], bodies[n_guarded:]
+        form = rng.choice(["if", "if", "switch", "fsm"])
+        nalt = rng.choice([1, 2, 2, 3])
+        groups: list = [[] for _ in range(nalt)]
+        for x in guarded:
+            groups[rng.randrange(nalt)].append(x)
+        if form == "if":
+            alts = [{"c": g.inp(), "items": groups[i]} for i in range(nalt)]
+            if nalt > 1 and rng.random() < 0.5:
+                alts[-1]["c"] = None
+            g.items.append({"k": "if", "alts": alts})
+        else:
+            nb = 1 if nalt <= 2 else 2
+            sel = [g.inp() for _ in range(nb)]
+            if form == "switch":
+                cases = [{"pat": i, "items": groups[i]} for i in range(nalt)]
+                if nalt > 1 and rng.random() < 0.5:
+                    cases[-1]["pat"] = None
+                g.items.append({"k": "switch", "sel": sel, "cases": cases})
+            else:
+                g.items.append({"k": "fsm", "sel": sel, "states": [{"items": groups[i]} for i in range(nalt)]})
+        g.items += free
+    elif kind == "connect":
         cn = connect()
         for _ in range(rng.choice([1, 1, 2, 3])):
             caller([ccall(cn, "write")])
